@@ -85,8 +85,8 @@ Theorem C15_trace_exact : forall f d r o, 1 <= nw f -> (1 <= length d)%nat ->
 Proof. intros f d r o Hw Hn Hr. apply fxp_sum_exact_any; try assumption; lia. Qed.
 Print Assumptions C15_trace_exact.
 
-(* PARTIAL: cumprod (running products rescaled to the common fraction length) is not stated
-   as a theorem; it is covered by the correspondence run. *)
+(* PARTIAL: max, min, sort, clip, transpose and diagonal (selections and permutations of the codes) and the accumulating functions
+   writing into a caller-chosen format (out= / out_like=) are not stated as theorems; they are covered by the correspondence run. *)
 Example C15_nonvacuous :
   let f := {| sg := true; nw := 4; nf := 1 |} in
   fxp_sum f 5 [-8; -8; -8; -8; -8] Trunc Saturate = Ok ({| sg := true; nw := 7; nf := 1 |}, {| w_codes := [-40]; w_ovf := false; w_unf := false; w_inacc := false |}) /\
